@@ -72,6 +72,52 @@ fn wire_fields(u: &Universe, e: &Entry, bytes: &[u8]) -> Result<(usize, Vec<(u16
     Ok((blocks, fields, masks))
 }
 
+
+struct LayoutMember {
+    name: String,
+    width: usize,
+    count: usize,
+    constant: Option<u64>,
+}
+
+/// byte layout of a plain wowm struct (fixed-size members only), read by the model
+fn struct_layout(u: &Universe, ns: Ns, name: &str) -> Option<Vec<LayoutMember>> {
+    use wowm_model::ast::{ArraySize, Member, TypeRef};
+    let obj = u.lookup(ns, name)?;
+    let cont = obj.container()?;
+    let mut sizer = wowm_model::sizes::Sizer::new(u, ns);
+    let mut out = Vec::new();
+    for m in &cont.members {
+        let Member::Field(f) = m else { return None };
+        let (width, count) = match &f.ty {
+            TypeRef::Simple { name, upcast } => {
+                let iv = sizer.type_interval(name, upcast.as_deref());
+                if !iv.is_constant() {
+                    return None;
+                }
+                (iv.min as usize, 1usize)
+            }
+            TypeRef::Array { inner, size: ArraySize::Fixed(n) } => {
+                let iv = sizer.type_interval(inner, None);
+                if !iv.is_constant() {
+                    return None;
+                }
+                (iv.min as usize, *n as usize)
+            }
+            _ => return None,
+        };
+        if width == 0 || width > 8 {
+            return None;
+        }
+        let constant = match &f.value {
+            Some(v) => Some(wowm_model::parser::parse_int(v)? as u64),
+            None => None,
+        };
+        out.push(LayoutMember { name: f.name.clone(), width, count, constant });
+    }
+    Some(out)
+}
+
 #[derive(Debug, Clone, Default)]
 struct Model {
     values: BTreeMap<u16, u32>,
@@ -257,8 +303,8 @@ pub fn run(tier: Tier, replay: Option<String>) -> i32 {
     let all_entries = entries(&u);
     let tables = field_tables();
     let kinds = um_kinds();
-    c.rule = "(a) every generated typed accessor of every object kind and expansion found by the scan: on a fresh mask after dirty_reset (and through the builder) the setter is called with tape values; the dirty bits (is_bit_dirty), the fields on the wire (SMSG_UPDATE_OBJECT written by the public writer, read back by the wowm model) and the getter must be exactly [offset, offset+width) / the value, with offset and enclosing [offset, offset+size) taken from the table of that name and version in types/update-mask.md (GUID accessors 2 words, others 1). (b) histories: all sequences to depth 4 over {set f1..f5, dirty_reset, mark_fully_dirty, write} on a representative field set per kind (lowest, block-boundary and highest offsets, one of each signature class) and proptest sequences to length 40, against a model (values map, present set, dirty set, block count) with invariants after every step: getters, is_bit_dirty for every bit, has_any_dirty_fields, and on write: block count, mask blocks = present and dirty, values ascending, decoding a form that carries the TYPE field returns exactly the written fields and re-encodes identically. Non-trivial = history with a write after a dirty operation, or an accessor case; distinct = (expansion, kind, accessor) / (expansion, kind, operation sequence shape).".into();
-    c.assume("accessors with custom argument types (enum tuples, indexed item/skill/quest structs) are counted, not exercised");
+    c.rule = "(a) every generated typed accessor of every object kind and expansion found by the scan: on a fresh mask after dirty_reset (and through the builder) the setter is called with tape values; the dirty bits (is_bit_dirty), the fields on the wire (SMSG_UPDATE_OBJECT written by the public writer, read back by the wowm model) and the getter must be exactly [offset, offset+width) / the value, with offset and enclosing [offset, offset+size) taken from the table of that name and version in types/update-mask.md (GUID accessors 2 words, others 1); indexed accessors (skill info, visible item): every slot addresses its own stride of the table entry, and the words written for a value with pairwise distinct members are the little-endian bytes of the wowm struct of that name and version, member by member (either half order inside a word of two 16-bit values); accessor instances (plain, indexed slot, inventory slot) that touch a common word without covering exactly the same words: set A, set B, get A must still return A's value (two names for exactly the same words are one field, counted). (b) histories: all sequences to depth 4 over {set f1..f5, dirty_reset, mark_fully_dirty, write} on a representative field set per kind (lowest, block-boundary and highest offsets, one of each signature class) and proptest sequences to length 40, against a model (values map, present set, dirty set, block count) with invariants after every step: getters, is_bit_dirty for every bit, has_any_dirty_fields, and on write: block count, mask blocks = present and dirty, values ascending, decoding a form that carries the TYPE field returns exactly the written fields and re-encodes identically. Non-trivial = history with a write after a dirty operation, or an accessor case; distinct = (expansion, kind, accessor) / (expansion, kind, operation sequence shape).".into();
+    c.assume("accessors with custom argument types other than the indexed SkillInfo / VisibleItem structs (enum tuples) are counted, not exercised");
     c.assume("the size reported for the mask is observed through the writer's own 'declared size == bytes written' assertion");
     let seed = c.seed;
     let mut reported: BTreeSet<String> = BTreeSet::new();
@@ -398,6 +444,199 @@ pub fn run(tier: Tier, replay: Option<String>) -> i32 {
                             }
                         }
                     },
+                }
+            }
+        }
+        // ---- (a3) indexed custom accessors: the words of every slot against the byte layout of the wowm struct
+        for (name, sname) in k.indexed.iter().zip(k.indexed_types.iter()) {
+            let tname = name.to_uppercase();
+            let Some(te) = table.get(&tname) else { continue };
+            let mut n = 0u16;
+            while (k.new)().set_indexed(name, n).is_some() {
+                n += 1;
+            }
+            if n == 0 {
+                continue;
+            }
+            let stride = te.size / n;
+            let Some(layout) = struct_layout(&u, ns, sname) else {
+                c.count("indexed_value_struct_not_in_the_wowm");
+                continue;
+            };
+            for i in 0..n {
+                for salt in [seed, seed ^ 0x5555] {
+                    c.eval();
+                    c.nontrivial(vcommon::fnv(format!("{}|{}|{}|{}|layout", k.exp, k.kind, name, i).as_bytes()));
+                    let mut o = (k.new)();
+                    o.dirty_reset();
+                    let Some(members) = o.set_indexed_value(name, i, salt) else { continue };
+                    let mut fail = |c: &mut Check, kind: &str, detail: String| {
+                        if reported.insert(format!("{}:{}:{}:{}", k.exp, k.kind, name, kind)) {
+                            c.fail(&format!("c13:{}:{}:{}:{}", k.exp, k.kind, name, kind), &detail, json!({"exp": k.exp, "kind": k.kind, "accessor": name, "index": i, "salt": salt, "members": format!("{:x?}", members), "table": {"offset": te.offset, "size": te.size}}));
+                        }
+                    };
+                    // expected words of the slot: the struct's members in wowm order, little endian
+                    let mut bytes: Vec<u8> = Vec::new();
+                    let mut settable: Vec<bool> = Vec::new();
+                    let mut problem = None;
+                    for m in &layout {
+                        let vals: Vec<u64> = match (&m.constant, members.iter().find(|(mn, _)| *mn == m.name)) {
+                            (Some(k), _) => vec![*k; m.count],
+                            (None, Some((_, v))) if v.len() == m.count => v.clone(),
+                            _ => {
+                                problem = Some(format!("member {} of {} has no counterpart in the Rust struct", m.name, sname));
+                                break;
+                            }
+                        };
+                        for v in vals {
+                            bytes.extend_from_slice(&v.to_le_bytes()[..m.width]);
+                            settable.extend(std::iter::repeat(m.constant.is_none()).take(m.width));
+                        }
+                    }
+                    if let Some(p) = problem {
+                        fail(&mut c, "indexed-struct-members", p);
+                        continue;
+                    }
+                    if bytes.len() > stride as usize * 4 || bytes.len() % 4 != 0 {
+                        fail(&mut c, "indexed-struct-size", format!("wowm struct {} is {} bytes, the table gives {} words per slot ({} words / {} slots)", sname, bytes.len(), stride, te.size, n));
+                        continue;
+                    }
+                    // a struct shorter than the stride leaves the rest of the slot unused
+                    let struct_words = (bytes.len() / 4) as u16;
+                    // words made of two 16-bit values: the table says nothing about which half comes first (same
+                    // stance as for TWO_SHORT accessors), so either order is accepted and the swapped one is counted
+                    let mut two_halves: Vec<bool> = vec![false; struct_words as usize];
+                    {
+                        let mut off = 0usize;
+                        for m in &layout {
+                            for _ in 0..m.count {
+                                if m.width == 2 && off % 4 == 0 {
+                                    two_halves[off / 4] = true;
+                                }
+                                if m.width != 2 && m.width < 4 {
+                                    two_halves[off / 4] = false;
+                                }
+                                off += m.width;
+                            }
+                        }
+                    }
+                    if o.get_indexed_equals(name, i, salt) != Some(true) {
+                        fail(&mut c, "indexed-getter-value", format!("getter of index {} does not return the value that was set", i));
+                    }
+                    let lo = te.offset + stride * i;
+                    match o.carrier() {
+                        Err(e) => fail(&mut c, "write-failed", e),
+                        Ok(wbytes) => match wire_fields(&u, carrier, &wbytes) {
+                            Err(e) => fail(&mut c, "written-form-unreadable", e),
+                            Ok((_, wire, _)) => {
+                                let on_wire: BTreeMap<u16, u32> = wire.iter().cloned().collect();
+                                for w in 0..struct_words {
+                                    let exp_word = u32::from_le_bytes([bytes[w as usize * 4], bytes[w as usize * 4 + 1], bytes[w as usize * 4 + 2], bytes[w as usize * 4 + 3]]);
+                                    let any_settable = settable[w as usize * 4..w as usize * 4 + 4].iter().any(|b| *b);
+                                    match on_wire.get(&(lo + w)) {
+                                        Some(got) if *got != exp_word && two_halves[w as usize] && got.rotate_left(16) == exp_word => c.count("indexed_word_of_two_u16_with_the_halves_in_the_other_order"),
+                                        Some(got) if *got != exp_word => fail(&mut c, "indexed-layout", format!("slot {} word {} (field {:#x}): the wowm struct {} puts {:#010x} there, on the wire {:#010x}", i, w, lo + w, sname, exp_word, got)),
+                                        None if any_settable => fail(&mut c, "indexed-layout", format!("slot {} word {} (field {:#x}) carries settable members of {} but is not on the wire", i, w, lo + w, sname)),
+                                        _ => {}
+                                    }
+                                }
+                                if c.samples.len() < 8 && i == 1 && salt == seed {
+                                    c.sample(json!({"exp": k.exp, "kind": k.kind, "accessor": name, "index": i, "struct": sname, "expected_bytes": vcommon::hex(&bytes), "first_field": lo}));
+                                }
+                            }
+                        },
+                    }
+                }
+            }
+        }
+        // ---- (a4) no two accessors address the same word: set A, set B, A's getter still returns A's value
+        {
+            #[derive(Clone, Debug)]
+            enum Inst {
+                Basic(&'static str, &'static str),
+                Indexed(&'static str, u16),
+                Slot(&'static str, u16),
+            }
+            let apply = |o: &mut dyn MaskObj, i: &Inst, salt: u64| match i {
+                Inst::Basic(n, _) => {
+                    o.set(n, salt);
+                }
+                Inst::Indexed(n, k) => {
+                    o.set_indexed_value(n, *k, salt);
+                }
+                Inst::Slot(n, k) => {
+                    o.set_slot_guid(n, *k, salt | 1);
+                }
+            };
+            let holds = |o: &dyn MaskObj, i: &Inst, salt: u64| -> bool {
+                match i {
+                    Inst::Basic(n, sig) => o.get(n) == Some(Some(words_of(sig, salt))),
+                    Inst::Indexed(n, k) => o.get_indexed_equals(n, *k, salt) == Some(true),
+                    Inst::Slot(n, k) => o.get_slot_guid(n, *k) == Some(Some(salt | 1)),
+                }
+            };
+            let mut insts: Vec<Inst> = k.accessors.iter().map(|(n, sig, _)| Inst::Basic(n, sig)).collect();
+            for name in k.indexed {
+                let mut i = 0u16;
+                while (k.new)().set_indexed(name, i).is_some() {
+                    insts.push(Inst::Indexed(name, i));
+                    i += 1;
+                }
+            }
+            for name in k.slotguid {
+                for i in 0..256u16 {
+                    if (k.new)().set_slot_guid(name, i, 1).is_some() {
+                        insts.push(Inst::Slot(name, i));
+                    }
+                }
+            }
+            c.count_n("accessor_instances_in_the_alias_check", insts.len() as u64);
+            let mut owner: BTreeMap<u16, usize> = BTreeMap::new();
+            let mut pairs: BTreeSet<(usize, usize)> = BTreeSet::new();
+            let mut bits_of: Vec<Vec<u16>> = Vec::new();
+            for (ii, inst) in insts.iter().enumerate() {
+                let mut o = (k.new)();
+                o.dirty_reset();
+                apply(o.as_mut(), inst, 0x1234_5678_9ABC_DEF1);
+                bits_of.push(dirty_bits(o.as_ref()));
+                for b in bits_of[ii].clone() {
+                    match owner.get(&b) {
+                        Some(prev) if *prev != ii => {
+                            pairs.insert((*prev, ii));
+                        }
+                        _ => {
+                            owner.insert(b, ii);
+                        }
+                    }
+                }
+            }
+            for (a, b) in pairs {
+                if bits_of[a] == bits_of[b] {
+                    // the table lists two names at the same offset with the same width (OBJECT_CREATED_BY and the first
+                    // GUID field of a kind): one field with two names, `last set for its field` is well defined
+                    c.count("two_accessor_names_for_exactly_the_same_words_not_judged");
+                    continue;
+                }
+                for (first, second) in [(a, b), (b, a)] {
+                    c.eval();
+                    c.nontrivial(vcommon::fnv(format!("{}|{}|alias|{:?}|{:?}", k.exp, k.kind, insts[first], insts[second]).as_bytes()));
+                    let (sa, sb) = (0x0A0A_0A0A_1B1B_1B1Bu64 ^ seed, 0x7C7C_7C7C_6D6D_6D6Du64 ^ seed.rotate_left(17));
+                    let mut o = (k.new)();
+                    apply(o.as_mut(), &insts[first], sa);
+                    if !holds(o.as_ref(), &insts[first], sa) {
+                        continue;
+                    }
+                    apply(o.as_mut(), &insts[second], sb);
+                    if !holds(o.as_ref(), &insts[first], sa) {
+                        let (na, nb) = (format!("{:?}", insts[first]), format!("{:?}", insts[second]));
+                        let names = |i: &Inst| match i {
+                            Inst::Basic(n, _) | Inst::Indexed(n, _) | Inst::Slot(n, _) => *n,
+                        };
+                        let key = format!("{}:{}:{}+{}:accessors-alias", k.exp, k.kind, names(&insts[first]), names(&insts[second]));
+                        if reported.insert(key.clone()) {
+                            c.fail(&format!("c13:{}", key), &format!("after {} was set, setting {} changes what the getter of the first returns: both address the same word", na, nb), json!({"exp": k.exp, "kind": k.kind, "first": na, "second": nb}));
+                        }
+                    }
                 }
             }
         }
